@@ -41,7 +41,7 @@ class InverseLaplaceTransformer(UnilateralInverseTransformer):
         return (expr, s, t,
                 kwargs.get('causal', False),
                 kwargs.get('zero_initial_conditions', True),
-                kwargs.get('damped_sin', True),
+                kwargs.get('damped_sin', False),
                 kwargs.get('damping', None))
 
     def func(self, expr, s, t):
